@@ -84,3 +84,13 @@ def count_events(path):
 def require(cond, what):
     if not cond:
         raise Inconclusive(what)
+
+
+def require_actions(res, names):
+    """Vacuity: with coverage on, every named action of the base spec must have fired."""
+    cov = res.get("coverage") or {}
+    if not cov:
+        return
+    dead = [n for n in names if not cov.get(n)]
+    if dead:
+        raise Inconclusive("actions never taken in the exhaustive run of %s: %s" % (res["module"], ", ".join(dead)))
